@@ -88,3 +88,48 @@ Theorem C03_close_is_delivered :
   exists rb, rview s sid y = Some (rb, true) /\ run_written s sid ls os = run_reads s sid ls os ++ pipe rb.
 Proof. exact close_is_delivered. Qed.
 Print Assumptions C03_close_is_delivered.
+
+(* ---------------------------------------------------------------------------------------------
+   The relay level: the two goroutines server.serveSession / client.RouteTCP start per stream
+   (common.Copy in both directions, each closing BOTH ends when it is done), Model/RelayPair.v, as a
+   transition system with one program counter per goroutine; `sched` is ANY schedule. *)
+From Cloak Require Import Model.RelayPair Proofs.RelayPair.
+
+(* The peer wrote B (= concat chunks) and closed the stream; the local peer sends nothing and keeps its
+   connection open.  Then, whatever the schedule: the relay closes the local connection only after ALL
+   of B has been written to it (never an early end, never a lost tail), what has been written so far
+   is always a prefix of B, nothing is sent back up the stream, and the pair is never stuck before
+   both goroutines have finished. *)
+Theorem C03_relay_delivers_all_before_closing : forall chunks sched,
+  let r := run false (RelayPair.init chunks true [] false) sched in
+  (l_closed r = true -> l_out r = concat chunks) /\
+  (exists tail, concat chunks = l_out r ++ tail) /\
+  s_out r = [] /\
+  (finished r = true \/ exists t r', step false r t = Some r').
+Proof. exact relay_pair_delivers_all_before_closing. Qed.
+Print Assumptions C03_relay_delivers_all_before_closing.
+
+(* ... and it does finish: both ends closed, all of B delivered *)
+Theorem C03_relay_can_finish : forall chunks,
+  let r := run false (RelayPair.init chunks true [] false) (repeat_tid Down (length chunks + 3) ++ repeat_tid Up 3) in
+  finished r = true /\ l_closed r = true /\ s_closed r = true /\ l_out r = concat chunks.
+Proof. exact relay_pair_can_finish. Qed.
+Print Assumptions C03_relay_can_finish.
+
+(* In EVERY environment (whatever either side sends, whenever either side ends) and for every schedule:
+   the bytes written to the local connection are a prefix of what the stream delivered, and the frames
+   sent up the stream are an initial segment of what the local connection's reads returned. *)
+Theorem C03_relay_pair_safe : forall chunks send lin leof sched,
+  let r := run false (RelayPair.init chunks send lin leof) sched in
+  (exists tail, concat chunks = l_out r ++ tail) /\ (exists rest, lin = s_out r ++ rest).
+Proof. exact relay_pair_safe. Qed.
+Print Assumptions C03_relay_pair_safe.
+
+(* Why Stream.ReadFrom must not test the stream's closed flag BEFORE its read: with that test the up
+   goroutine leaves as soon as the peer has closed, and its deferred closes shut the local connection
+   while the down goroutine still holds undelivered bytes (witness: one chunk, schedule Up Up Up Down..). *)
+Theorem C03_relay_early_check_refuted :
+  exists chunks sched, let r := run true (RelayPair.init chunks true [] false) sched in
+    finished r = true /\ l_closed r = true /\ l_out r <> concat chunks.
+Proof. exact relay_pair_early_check_refuted. Qed.
+Print Assumptions C03_relay_early_check_refuted.
